@@ -45,6 +45,8 @@ func checkC06(c *Ctx) Meta {
 	c.Rule("C06-LOCK", "issuance and lookup run under the manager lock and inside one db.Update", 3)
 	c.Rule("C06-KEEPER", "the keeper names a new plot from both results of one GenerateNewPublicKey call", 1)
 	c.Rule("C06-FOUND", "a plot key handed out can be looked up: GenerateNewPublicKey reports success only behind the success edge of the step that enters the new key into the address index (updateManagedAddress), so GetPublicKeyOrdinal and signing find it at once; the keeper compares a file's ordinal with the wallet's ordinal exactly (no narrowing conversion)", 2)
+	c.Rule("C06-TXRUN", "an ordinal that is handed out was committed: db.Update returns the error of BeginTx, of the body and of Commit on every path and reports success only after tx.Commit — otherwise the same key and ordinal are issued again by the next request", 5)
+	checkTxRunner(c, "C06-TXRUN")
 	checkC06Found(c)
 	c.Rule("C06-BRANCH", "the external (plot-key) counter and the internal counter never cross: every consumer of a counter (struct field, putLastIndex/updateChildNum argument, exported hdPath) receives only values produced for the same branch (fetchChildNum result, getChildNum flag, field), producers and consumers being labelled from the DB key they read or write", 10)
 	checkBranchPolarity(c, "C06-BRANCH")
@@ -133,19 +135,22 @@ func checkC06(c *Ctx) Meta {
 				}
 			}
 		}
+		// the issuing call may sit in an unexported helper of the package (bounded inlining, summary.go)
 		var na *ssa.Call
-		for _, fn := range withClosures(f) {
-			for _, cl := range callsIn(fn, "(*"+tAddrMgr+").nextAddresses") {
-				na = cl
-			}
+		body := bodyFns(f, exceptExported)
+		nas := callsInBody(f, "(*"+tAddrMgr+").nextAddresses")
+		if len(nas) > 0 {
+			na = nas[len(nas)-1]
 		}
 		if na == nil {
 			ok, why = false, "nextAddresses is not called"
+		} else if len(nas) > 1 {
+			ok, why = false, "more than one issuing call per request"
 		} else {
-			if k, isK := strip(na.Call.Args[2]).(*ssa.Const); !isK || k.Value.String() != "false" {
+			if k := constThrough(na.Call.Args[2], body); k == nil || k.Value == nil || k.Value.String() != "false" {
 				ok, why = false, "plot keys are not issued on the external branch"
 			}
-			if k, isK := strip(na.Call.Args[3]).(*ssa.Const); !isK || k.Value.ExactString() != "1" {
+			if k := constThrough(na.Call.Args[3], body); k == nil || k.Value == nil || k.Value.ExactString() != "1" {
 				ok, why = false, "more or fewer than one key is issued per request"
 			}
 		}
@@ -156,9 +161,11 @@ func checkC06(c *Ctx) Meta {
 		}
 		// lock + single Update
 		var upd *ssa.Call
-		for _, s := range txSites(f) {
+		var updClosure *ssa.Function
+		for _, s := range txSitesBody(f) {
 			if s.Write {
 				upd = s.Call
+				updClosure = s.Closure
 			}
 		}
 		if upd != nil && holds(li, upd, tKMC+".mu") {
@@ -166,7 +173,15 @@ func checkC06(c *Ctx) Meta {
 		} else {
 			c.Bad("C06-LOCK", "GenerateNewPublicKey:under-manager-lock", c.Pos(f.Pos()), "plot keys are issued without the manager lock: concurrent requests interleave with keystore changes")
 		}
-		if na != nil && na.Parent() != f && upd != nil {
+		inUpd := false
+		if na != nil && updClosure != nil {
+			for _, g := range bodyFns(updClosure, exceptExported) {
+				if na.Parent() == g {
+					inUpd = true
+				}
+			}
+		}
+		if na != nil && upd != nil && inUpd {
 			c.OK("C06-LOCK", "GenerateNewPublicKey:issuance-inside-update", c.Pos(na.Pos()), "nextAddresses runs inside the db.Update closure")
 		} else {
 			c.Bad("C06-LOCK", "GenerateNewPublicKey:issuance-inside-update", c.Pos(f.Pos()), "the counter read and advance are not inside one db.Update")
@@ -416,6 +431,8 @@ func checkC05(c *Ctx) Meta {
 	checkSamePassphraseGates(c, "C05-LOCKSTATE")
 	c.Rule("C05-KEEPER", "the keeper signs with the public key of the workspace looked up by the requested space id", 1)
 	c.Rule("C05-ERASE", "locking leaves no usable key behind: the eraser zeroes every private-hierarchy field any function fills and drops the pointers other code tests for nil (the C03 eraser rule, here as the premise of 'requests while locked fail' and of re-derivation after the next unlock)", 7)
+	c.Rule("C05-TXRUN", "a key that is handed out was committed: db.Update returns the error of BeginTx, of the body and of Commit on every path and reports success only after tx.Commit — otherwise the key signs now and is unknown after a restart", 5)
+	checkTxRunner(c, "C05-TXRUN")
 	c.aliasFrom, c.aliasTo = "C03-ERASE", "C05-ERASE"
 	checkEraser(c)
 	c.aliasFrom, c.aliasTo = "", ""
@@ -425,7 +442,7 @@ func checkC05(c *Ctx) Meta {
 		li2 := keystoreLocksets(c)
 		key := "Lock:keys-wiped-before-the-manager-lock-is-released"
 		n, bad := 0, false
-		for _, g := range withClosures(f) {
+		for _, g := range bodyFns(f, exceptExported) {
 			for _, cl := range callsIn(g, "(*"+tAddrMgr+").clearPrivKeys") {
 				n++
 				if !holds(li2, cl, tKMC+".mu") {
@@ -890,40 +907,16 @@ func checkC06Found(c *Ctx) {
 	rule := "C06-FOUND"
 	if f := c.MustFn(rule, "poc/wallet/keystore", "(*KeystoreManagerForPoC).GenerateNewPublicKey"); f != nil {
 		key := "GenerateNewPublicKey:success-only-after-index-refresh"
-		var refresh *ssa.Call
-		allInstrs(f, func(in ssa.Instruction) {
-			cl, ok := in.(*ssa.Call)
-			if !ok {
-				return
-			}
-			for _, a := range cl.Call.Args {
-				if mc, isMC := a.(*ssa.MakeClosure); isMC {
-					if len(callsIn(mc.Fn.(*ssa.Function), "(*"+tAddrMgr+").updateManagedAddress")) > 0 {
-						refresh = cl
-					}
-				}
-			}
-			if isCall(cl, "(*"+tAddrMgr+").updateManagedAddress") {
-				refresh = cl
-			}
-		})
-		if refresh == nil {
+		found, ok, refresh, why := failureFails(f, func(cl *ssa.Call) bool { return isCall(cl, "(*"+tAddrMgr+").updateManagedAddress") }, summaryDepth)
+		switch {
+		case !found:
 			c.Bad(rule, key, c.Pos(f.Pos()), "reason=anchor-missing: the step entering the new key into the address index")
-		} else if len(errResults(refresh)) == 0 || len(nilTestsOf(f, errResults(refresh)[0])) == 0 {
+		case !ok && why == "the result of the step is not tested":
 			c.Bad(rule, key, c.Pos(refresh.Pos()), "the result of the index refresh is not tested")
-		} else {
-			r := reach(f, refresh, errorEdgeCut(f, refresh, false), nil)
-			bad := false
-			for _, ret := range returnsOf(f) {
-				if isNilErrorReturn(ret) && r(ret) {
-					bad = true
-				}
-			}
-			if bad {
-				c.Bad(rule, key, c.Pos(refresh.Pos()), "GenerateNewPublicKey can report success although entering the key into the address index failed: the key it returned is unknown to GetPublicKeyOrdinal and to signing until the next restart")
-			} else {
-				c.OK(rule, key, c.Pos(refresh.Pos()), "a failed index refresh fails the request")
-			}
+		case !ok:
+			c.Bad(rule, key, c.Pos(refresh.Pos()), "GenerateNewPublicKey can report success although entering the key into the address index failed: the key it returned is unknown to GetPublicKeyOrdinal and to signing until the next restart")
+		default:
+			c.OK(rule, key, c.Pos(refresh.Pos()), "a failed index refresh fails the request")
 		}
 	}
 	if f := c.MustFn(rule, "poc/engine/spacekeeper/capacity", "generateInitialIndex"); f != nil {
